@@ -73,6 +73,25 @@ pub fn run(s: &dyn Subject, ctx: &Ctx) -> Option<DeclReport> {
                 }
                 _ => {}
             }
+            // the same in container positions
+            for (p, nbt, nbi, nbr, back) in &o.nested {
+                rep.executions += 1;
+                if matches!(f, Fmt::Json | Fmt::MsgPack) && nbt != nbi {
+                    rep.violate(&format!("{:?}:nested-bytes-differ-from-inner-encoding", f), format!("{:?}@{}", p, raw.show()), show(nbt), show(nbi), String::new());
+                }
+                if nbt != nbr {
+                    rep.violate(&format!("{:?}:nested-bytes-differ-from-serde-derived-newtype", f), format!("{:?}@{}", p, raw.show()), show(nbt), show(nbr), String::new());
+                }
+                if let (Some(Ok(inner_back)), Some(b)) = (&o.inner_roundtrip, back) {
+                    if *inner_back == v {
+                        rep.class(&format!("{:?}:{:?}:roundtrip", f, p));
+                        match b {
+                            crate::subject::DeObs::Ok(vals) if !vals.is_empty() && vals.iter().all(|x| *x == v) => {}
+                            other => rep.violate(&format!("{:?}:nested-roundtrip-fails", f), format!("{:?}@{}", p, raw.show()), format!("{:?}", other), v.show(), show(nbt)),
+                        }
+                    }
+                }
+            }
             if rep.samples.len() < 2 && rep.executions % 53 == 0 {
                 rep.sample(format!("{} :: {:?} of value {} = {} (inner: {})", spec.src.replace('\n', " "), f, v.show(), show(&bt), show(&bi)));
             }
